@@ -3566,6 +3566,8 @@ class BsDecomp(Output):
         bsrel = verif.metric.BsRel()
         bsres = verif.metric.BsRes()
         bsunc = verif.metric.BsUnc()
+        if "within" in self.bin_type:
+            verif.util.error("A single threshold cannot form a 'within' interval (use -b with an above or below type)")
         interval = verif.util.get_intervals(self.bin_type, self.thresholds)[0]
         threshold = self.thresholds[0]
 
